@@ -491,3 +491,26 @@ def rule_signal_dispositions(ctx, r, prop, roots=POOL_ROOTS):
             else:
                 r.ok(con, f"disposition {disp} for {sig} does not affect this property", loc(call, mod))
     r.ok("src/gwf::signal-dispositions", f"{n} signal.signal call site(s) in the package, none installs a disposition that defeats the property (matcher checked on a positive example)", "src/gwf/cli.py:1")
+
+
+def rule_sibling_call_agreement(ctx, r, callee="gwf.core.get_spec_hashes", what="the spec-hash store"):
+    """Every command opens `what` the same way: all call sites of `callee` in the package pass the same set of arguments, with the same expressions (cross-check of
+    siblings: a parameter added for one command - a per-workflow file name, a namespace - and not for the others makes them read and write different stores)."""
+    import ast
+    from ..index import loc, walk_no_nested
+    idx = ctx.index
+    sites = []
+    for f in idx.functions.values():
+        for n in walk_no_nested(f.node):
+            if isinstance(n, ast.Call) and isinstance(n.func, (ast.Name, ast.Attribute)) and (idx.canon(n.func, f.module) or "") == callee:
+                shape = tuple([("#%d" % i, ast.unparse(a)) for i, a in enumerate(n.args)] + sorted((k.arg or "**", ast.unparse(k.value)) for k in n.keywords))
+                sites.append((f, n, shape))
+    if len(sites) < 2:
+        r.info(f"src/gwf::{callee}::call-sites", f"{len(sites)} call site(s): nothing to compare")
+        return
+    from collections import Counter
+    common, _cnt = Counter(s[2] for s in sites).most_common(1)[0]
+    for f, n, shape in sites:
+        r.check(shape == common, f"{f.module.relpath}::{f.qual}::{callee.rsplit('.', 1)[1]}", f"opens {what} like its siblings: ({', '.join(k + '=' + v for k, v in shape)})",
+                f"{f.qual} opens {what} with ({', '.join(k + '=' + v for k, v in shape)}) while the other commands use ({', '.join(k + '=' + v for k, v in common)}): the commands "
+                "do not read and write the same store - what one records (touch, an accepted submission, clean) the other does not see", loc(n, f.module))
